@@ -61,6 +61,7 @@ func R24(pkgs ...string) func(p *core.Prog) *core.Result {
 			indexTranslation(p, r, in)
 			valuelessArm(p, r, in)
 			consumeExamined(p, r, in)
+			eventArgChunkFree(p, r, in)
 			headOfCollected(p, r, in)
 			feedAll(p, r, in)
 			markerSign(p, r, in)
